@@ -24,6 +24,7 @@ var c08Steps = []hv.Step{
 	{Op: "Set", K: "X-B", V: "2"},
 	{Op: "WH", N: 103},            // an informational response: status and headers of the final one are still open
 	{Op: "Mut", K: "X-B", V: "9"}, // the value slice of a header edited in place
+	{Op: "KSet", K: "X-K", V: "3"}, // a header set through the map the handler obtained before anything was written
 }
 
 // headTrialRecovered: the GET handler program panics somewhere and a recovery option answers; HEAD must still
@@ -132,7 +133,7 @@ func headTrialOn(prog []hv.Step, viaGroup bool) (class, obs, exp string, outcome
 		// was a header changed after the first body write / explicit WriteHeader?
 		sent := false
 		for _, s := range prog {
-			if (s.Op == "Set" || s.Op == "Del") && sent {
+			if (s.Op == "Set" || s.Op == "Del" || s.Op == "KSet") && sent {
 				class = "head-headers-differ:set-after-write"
 			}
 			if s.Op == "W" || s.Op == "WH" && s.N >= 200 {
